@@ -1,4 +1,4 @@
 SPECIFICATION Spec
-CONSTANTS Mode = "split"  MaxLen = 6  MaxArgs = 0  MaxArgLen = 0  PruneAt = 0  Sel = 0  Mod = 1
+CONSTANTS Mode = "split"  MaxLen = 6  MaxArgs = 0  MaxArgLen = 0  WithNB = FALSE  PruneAt = 0  Sel = 0  Mod = 1
 INVARIANTS LawMalformed LawPlain EmitSplit
 CHECK_DEADLOCK FALSE
